@@ -648,6 +648,11 @@ func runHist(d histD, origin string) (hx.Case, counter) {
 			obs = append(obs, map[string]interface{}{"write": cls, "err": fmt.Sprint(err)})
 			prevTab = emitFtab()
 		case "snap":
+			if w.snap != nil {
+				// Engine.snapshotMu: a second WriteSnapshot waits until the one in flight is committed
+				o.Count("snap:would-wait-for-in-flight-skipped")
+				continue
+			}
 			err, _ := guard(func() error { return w.eng.WriteSnapshot() })
 			items = append(items, "XSnapshot "+hx.CoqBool(err == nil))
 			if err != nil {
@@ -727,6 +732,14 @@ func runHist(d histD, origin string) (hx.Case, counter) {
 			}
 			o.Count(fmt.Sprintf("compact:len=%d,fast=%v", op.Len, op.Fast))
 		case "delete":
+			if w.snap != nil {
+				// Engine.snapshotMu: the delete waits until the snapshot in flight is committed
+				sn := w.snap
+				w.snap = nil
+				err, _ := guard(func() error { return w.eng.VerifSnapshotCommit(sn) })
+				items = append(items, "XSnapCommit "+hx.CoqBool(err == nil))
+				o.Count("delete:waited-for-in-flight-snapshot")
+			}
 			it := &serIter{}
 			var cs []string
 			for _, s := range op.Ser {
